@@ -63,6 +63,24 @@ def gen_cases(ctx):
             else:
                 ops += [o, ("n", 1, o[2] * 0.25), ("n", 2, o[2] + 64.0)]
         cases.append(Case("%s_long" % ind, ops, dump=(), meta={"ind": ind, "params": pr, "factor": 0.25, "shift": 64.0, "n": nlong, "pow2": True}))
+    # FastStochastic / SlowStochastic at a tiny price level (1.5e-300) with moves of a few units in the last place: the window range is a
+    # subnormal number, the ratio is still exact — against the copy scaled by 2^300 (seed-independent; a flatness test written as
+    # `range < f64::MIN_POSITIVE` or with an absolute epsilon makes %K depend on the price unit)
+    import math
+    for ind in ("FAST", "SLOW"):
+        for p in (2, 5):
+            x = 1.5e-300
+            xs = []
+            for k_ in range(4 * p + 14):
+                for _ in range((k_ * 7) % 3):
+                    x = math.nextafter(x, math.inf if (k_ * 5) % 4 < 2 else 0.0)
+                xs.append(x)
+            pr = (p, 3 if ind == "SLOW" else 0, 0, 0.0)
+            f = 2.0 ** 300
+            ops = [new_op(s_, ind, pr) for s_ in range(3)]
+            for x in xs:
+                ops += [("n", 0, x), ("n", 1, x * f), ("n", 2, x)]
+            cases.append(Case("%s_tinyulps_p%d" % (ind, p), ops, dump=(), meta={"ind": ind, "params": pr, "factor": f, "shift": 0.0, "n": len(xs), "pow2": True}))
     # Maximum(x) = -Minimum(-x)
     for p in [1, 2, 3, 5, 9]:
         for rep in range(3):
